@@ -4,7 +4,7 @@ CONSTANTS
   Vals <- ValsDefault
   MaxDesc = 6
   AllOrders = TRUE
-  MaxT = 4
+  MaxT = 5
   DiffVals <- DiffThorough
   MaxP = 5
   Mu0s <- Mu0Default
